@@ -128,6 +128,8 @@ def random_script(rng, level, n, nstreams, icpt_max=0):
                 steps.append({"a": "build", "now": now, "max": mx})
     steps.append({"a": "build", "now": clk, "max": icpt_max or 1200})
     base = rng.choice(BASES)
+    if level == "icpt" and rng.random() < 0.5:          # the RTCP writer refuses some reports
+        steps = [dict(st, wfail=True) if st["a"] == "build" and rng.random() < 0.25 else st for st in steps]
     return {"level": level, "base": base, "ntp16": (base + NTP_UNIX) % 65536, "max": icpt_max if level == "icpt" else 0,
             "steps": steps}
 
